@@ -1,3 +1,4 @@
+import builtins
 import json
 import sys
 from abc import ABC, abstractmethod
@@ -305,6 +306,9 @@ class OvertlyBadEvals(Analysis):
             if (
                 hasattr(node.func, "id")
                 and node.func.id in context.pickled.properties.likely_safe_imports
+                # a builtin of the same name (e.g. `__import__`, which importlib also exports) is
+                # decompiled to the same bare name, so the import cannot vouch for the call
+                and not hasattr(builtins, node.func.id)
             ):
                 # if the call is to a constructor of an object imported from the Python
                 # standard library, it's probably okay
